@@ -105,6 +105,9 @@ pub fn cut_outer_edge<T: CoordsFloat>(
     if let Some(a) = e_anchor {
         let vid = map.vertex_id_transac(t, nd1)?;
         map.write_attribute(t, vid, VertexAnchor::from(a))?;
+        // the second half of the cut edge is a new edge, it lies on the same geometry
+        let eid = map.edge_id_transac(t, nd3)?;
+        map.write_attribute(t, eid, a)?;
     }
 
     Ok(())
